@@ -1,11 +1,1433 @@
 //! Signature-family searches: C02 C04 C05 C06 C07 C09
+//!
+//! Plain functions at the top are the reference side (pure-Rust backend `bls12_381_plus`):
+//! CoreAggregateVerify as a product of pairings and plain group sums of compressed points.
+use bls12_381_plus as rr;
+use bls12_381_plus::group::Curve as _;
+use std::collections::{HashMap, HashSet};
+
+/// Memo of hash-to-curve outputs / decoded keys for the reference aggregate verifier.
+pub struct SigsRefCache {
+    h1: HashMap<Vec<u8>, rr::G1Affine>,
+    h2: HashMap<Vec<u8>, rr::G2Prepared>,
+    p1: HashMap<Vec<u8>, Option<rr::G1Affine>>,
+    p2: HashMap<Vec<u8>, Option<(rr::G2Affine, rr::G2Prepared)>>,
+    neg_g2: rr::G2Prepared,
+    neg_g1: rr::G1Affine,
+}
+
+impl SigsRefCache {
+    pub fn new() -> Self {
+        SigsRefCache {
+            h1: HashMap::new(),
+            h2: HashMap::new(),
+            p1: HashMap::new(),
+            p2: HashMap::new(),
+            neg_g2: rr::G2Prepared::from(-rr::G2Affine::generator()),
+            neg_g1: -rr::G1Affine::generator(),
+        }
+    }
+}
+
+fn sigs_hkey(dst: &[u8], msg: &[u8]) -> Vec<u8> {
+    let mut k = Vec::with_capacity(1 + dst.len() + msg.len());
+    k.push(dst.len() as u8);
+    k.extend_from_slice(dst);
+    k.extend_from_slice(msg);
+    k
+}
+
+/// Reference CoreAggregateVerify (draft-irtf-cfrg-bls-signature 2.9 + the per-scheme wrappers):
+/// `pairs` = (compressed public key, message); Basic additionally demands pairwise distinct
+/// messages (`enforce_distinct`), Aug prefixes the key bytes; identity keys / signature,
+/// undecodable points and the empty list are INVALID.
+pub fn sigs_ref_core_aggregate_verify(
+    sig_in_g1: bool,
+    scheme: u8,
+    pairs: &[(Vec<u8>, Vec<u8>)],
+    sig: &[u8],
+    enforce_distinct: bool,
+    cache: &mut SigsRefCache,
+) -> bool {
+    if pairs.is_empty() {
+        return false;
+    }
+    if scheme == 0 && enforce_distinct {
+        let mut seen: HashSet<&[u8]> = HashSet::new();
+        for (_, m) in pairs {
+            if !seen.insert(m.as_slice()) {
+                return false;
+            }
+        }
+    }
+    let dst = crate::gen::dst(sig_in_g1, scheme);
+    let keys: Vec<Vec<u8>> = pairs
+        .iter()
+        .map(|(pk, m)| {
+            if scheme == 1 {
+                let mut a = pk.clone();
+                a.extend_from_slice(m);
+                sigs_hkey(&dst, &a)
+            } else {
+                sigs_hkey(&dst, m)
+            }
+        })
+        .collect();
+    let off = 1 + dst.len();
+    if sig_in_g1 {
+        let Some(sg) = crate::refs::dec_g1(sig) else { return false };
+        if bool::from(sg.is_identity()) {
+            return false;
+        }
+        for (pk, _) in pairs {
+            let e = cache
+                .p2
+                .entry(pk.clone())
+                .or_insert_with(|| crate::refs::dec_g2(pk).map(|a| (a, rr::G2Prepared::from(a))));
+            match e {
+                None => return false,
+                Some((a, _)) => {
+                    if bool::from(a.is_identity()) {
+                        return false;
+                    }
+                }
+            }
+        }
+        for k in &keys {
+            if !cache.h1.contains_key(k) {
+                let h = crate::refs::ref_hash_g1(&k[off..], &dst).to_affine();
+                cache.h1.insert(k.clone(), h);
+            }
+        }
+        let mut terms: Vec<(&rr::G1Affine, &rr::G2Prepared)> = Vec::with_capacity(pairs.len() + 1);
+        for ((pk, _), k) in pairs.iter().zip(&keys) {
+            terms.push((&cache.h1[k], &cache.p2[pk].as_ref().unwrap().1));
+        }
+        terms.push((&sg, &cache.neg_g2));
+        rr::multi_miller_loop(&terms).final_exponentiation() == rr::Gt::IDENTITY
+    } else {
+        let Some(sg) = crate::refs::dec_g2(sig) else { return false };
+        if bool::from(sg.is_identity()) {
+            return false;
+        }
+        for (pk, _) in pairs {
+            let e = cache.p1.entry(pk.clone()).or_insert_with(|| crate::refs::dec_g1(pk));
+            match e {
+                None => return false,
+                Some(a) => {
+                    if bool::from(a.is_identity()) {
+                        return false;
+                    }
+                }
+            }
+        }
+        for k in &keys {
+            if !cache.h2.contains_key(k) {
+                let h = crate::refs::ref_hash_g2(&k[off..], &dst).to_affine();
+                cache.h2.insert(k.clone(), rr::G2Prepared::from(h));
+            }
+        }
+        let sgp = rr::G2Prepared::from(sg);
+        let mut terms: Vec<(&rr::G1Affine, &rr::G2Prepared)> = Vec::with_capacity(pairs.len() + 1);
+        for ((pk, _), k) in pairs.iter().zip(&keys) {
+            terms.push((cache.p1[pk].as_ref().unwrap(), &cache.h2[k]));
+        }
+        terms.push((&cache.neg_g1, &sgp));
+        rr::multi_miller_loop(&terms).final_exponentiation() == rr::Gt::IDENTITY
+    }
+}
+
+/// Plain group sum of compressed points (G1 if `in_g1`, else G2); None if one does not decode.
+pub fn sigs_ref_sum(in_g1: bool, parts: &[Vec<u8>]) -> Option<Vec<u8>> {
+    if in_g1 {
+        let mut acc = rr::G1Projective::IDENTITY;
+        for p in parts {
+            acc += rr::G1Projective::from(crate::refs::dec_g1(p)?);
+        }
+        Some(acc.to_affine().to_compressed().to_vec())
+    } else {
+        let mut acc = rr::G2Projective::IDENTITY;
+        for p in parts {
+            acc += rr::G2Projective::from(crate::refs::dec_g2(p)?);
+        }
+        Some(acc.to_affine().to_compressed().to_vec())
+    }
+}
+
 macro_rules! search_sigs {
     () => {
-        pub fn c02(_s: &mut Search, _rng: &mut Prng, _thorough: bool) {}
-        pub fn c04(_s: &mut Search, _rng: &mut Prng, _thorough: bool) {}
-        pub fn c05(_s: &mut Search, _rng: &mut Prng, _thorough: bool) {}
-        pub fn c06(_s: &mut Search, _rng: &mut Prng, _thorough: bool) {}
-        pub fn c07(_s: &mut Search, _rng: &mut Prng, _thorough: bool) {}
-        pub fn c09(_s: &mut Search, _rng: &mut Prng, _thorough: bool) {}
+        pub type SigsS = <C as Pairing>::Signature;
+        pub type SigsP = <C as Pairing>::PublicKey;
+
+        fn sigs_imp() -> &'static str {
+            if G1 { "g1" } else { "g2" }
+        }
+        fn sigs_try<T>(f: impl FnOnce() -> T) -> Result<T, ()> {
+            catch(std::panic::AssertUnwindSafe(f))
+        }
+        fn sigs_sc(x: &RScalar) -> Scalar {
+            bsc(&sc_be(x))
+        }
+        fn sigs_sb(p: &SigsS) -> Vec<u8> {
+            p.to_bytes().as_ref().to_vec()
+        }
+        fn sigs_pb(p: &SigsP) -> Vec<u8> {
+            p.to_bytes().as_ref().to_vec()
+        }
+        fn sigs_mh(m: &[u8]) -> String {
+            if m.len() <= 64 { gen::hx(m) } else { format!("sha256:{}", gen::hx(&sha256(m))) }
+        }
+        fn sigs_mk(scheme: u8, p: SigsS) -> Signature<C> {
+            match scheme {
+                0 => Signature::Basic(p),
+                1 => Signature::MessageAugmentation(p),
+                _ => Signature::ProofOfPossession(p),
+            }
+        }
+        fn sigs_mk_agg(scheme: u8, p: SigsS) -> AggregateSignature<C> {
+            match scheme {
+                0 => AggregateSignature::Basic(p),
+                1 => AggregateSignature::MessageAugmentation(p),
+                _ => AggregateSignature::ProofOfPossession(p),
+            }
+        }
+        fn sigs_mk_multi(scheme: u8, p: SigsS) -> MultiSignature<C> {
+            match scheme {
+                0 => MultiSignature::Basic(p),
+                1 => MultiSignature::MessageAugmentation(p),
+                _ => MultiSignature::ProofOfPossession(p),
+            }
+        }
+        fn sigs_mk_pok(scheme: u8, u: SigsS, v: SigsS) -> ProofOfKnowledge<C> {
+            match scheme {
+                0 => ProofOfKnowledge::Basic { u, v },
+                1 => ProofOfKnowledge::MessageAugmentation { u, v },
+                _ => ProofOfKnowledge::ProofOfPossession { u, v },
+            }
+        }
+        fn sigs_with(mut det: serde_json::Value, extra: serde_json::Value) -> serde_json::Value {
+            if let (Some(o), Some(e)) = (det.as_object_mut(), extra.as_object()) {
+                for (k, v) in e {
+                    o.insert(k.clone(), v.clone());
+                }
+            }
+            det
+        }
+        /// one expectation: `got` = Ok(accepted?) or Err(()) if the library panicked
+        fn sigs_decide(s: &mut Search, class: &str, key: String, expect: bool, got: Result<bool, ()>, det: serde_json::Value) {
+            match got {
+                Err(()) => s.case(&format!("{class}_panicked"), key, false, det),
+                Ok(d) => s.case(class, key, d == expect, sigs_with(det, json!({"library_accepts": d, "expected_accept": expect}))),
+            }
+        }
+        fn sigs_vs_ref(s: &mut Search, key: String, got: Result<bool, ()>, refd: bool, det: serde_json::Value) {
+            if let Ok(d) = got {
+                s.case("decision_matches_reference", key, d == refd, sigs_with(det, json!({"library_accepts": d, "reference_accepts": refd})));
+            }
+        }
+        /// honest signing through the public API; None (and a failing case) if it errs or panics
+        fn sigs_sign(s: &mut Search, k: &RScalar, scheme: u8, m: &[u8]) -> Option<SigsS> {
+            let sk = sk_of(k);
+            match sigs_try(|| sk.sign(scheme_of(scheme), m)) {
+                Ok(Ok(sg)) => Some(*sg.as_raw_value()),
+                r => {
+                    let class = if r.is_err() { "honest_sign_panicked" } else { "honest_sign_succeeds" };
+                    s.case(class, format!("{}|{}|{}|{}", G1, gen::hs(k), scheme, gen::hx(&sha256(m))), false,
+                        json!({"impl": sigs_imp(), "sk": gen::hs(k), "scheme": gen::SCH[scheme as usize], "msg": sigs_mh(m)}));
+                    None
+                }
+            }
+        }
+        fn sigs_other_msg(rng: &mut Prng, m: &[u8]) -> Vec<u8> {
+            loop {
+                let o = rng.bytes(if m.is_empty() { 1 } else { m.len() });
+                if o != m {
+                    return o;
+                }
+            }
+        }
+        fn sigs_shuffle<T>(rng: &mut Prng, v: &mut Vec<T>) {
+            for i in (1..v.len()).rev() {
+                let j = rng.below(i as u64 + 1) as usize;
+                v.swap(i, j);
+            }
+        }
+        fn sigs_positions(rng: &mut Prng, n: usize, all: bool, thorough: bool) -> Vec<usize> {
+            if all || n <= 3 {
+                return (0..n).collect();
+            }
+            let mid = 1 + rng.below(n as u64 - 2) as usize;
+            if thorough && n > 32 {
+                // long lists: one position, anywhere (ends included)
+                return vec![rng.below(n as u64) as usize];
+            }
+            if rng.below(2) == 0 { vec![0, mid] } else { vec![mid, n - 1] }
+        }
+
+        // ------------------------------------------------------------------ C09
+        pub fn c09(s: &mut Search, rng: &mut Prng, thorough: bool) {
+            let mut pool = gen::edge_scalars();
+            for _ in 0..(if thorough { 25 } else { 8 }) {
+                pool.push(rng.scalar());
+            }
+            let mut proofs: Vec<Option<SigsS>> = vec![];
+            for k in &pool {
+                let sk = sk_of(k);
+                let det = json!({"impl": sigs_imp(), "sk": gen::hs(k)});
+                let key = format!("{}|{}", G1, gen::hs(k));
+                let p1 = sigs_try(|| sk.proof_of_possession());
+                let p2 = sigs_try(|| sk.proof_of_possession());
+                let (Ok(Ok(p1)), Ok(Ok(p2))) = (p1, p2) else {
+                    s.case("pop_prove_succeeds", key, false, det);
+                    proofs.push(None);
+                    continue;
+                };
+                s.case("pop_prove_succeeds", key.clone(), true, det.clone());
+                s.case("pop_deterministic", key.clone(), p1 == p2 && sigs_sb(&p1.0) == sigs_sb(&p2.0), det.clone());
+                let pk = sk.public_key();
+                sigs_decide(s, "pop_verifies_for_own_key", key.clone(), true, sigs_try(|| p1.verify(pk).is_ok()),
+                    sigs_with(det.clone(), json!({"proof": hexpt(&p1.0)})));
+                // perturbations of the proof point
+                let g = SigsS::generator();
+                let kr = sigs_sc(&rng.scalar());
+                let perts: Vec<(&str, String, SigsS)> = vec![
+                    ("pop_plus_g_rejects", "proof+G".into(), p1.0 + g),
+                    ("pop_plus_g_rejects", "proof-G".into(), p1.0 - g),
+                    ("pop_plus_g_rejects", format!("proof+k*G k={}", hex::encode(bsc_be(&kr))), p1.0 + g * kr),
+                    ("pop_negated_rejects", "-proof".into(), -p1.0),
+                    ("pop_doubled_rejects", "2*proof".into(), p1.0.double()),
+                    ("pop_scaled_rejects", format!("k*proof k={}", hex::encode(bsc_be(&(kr + Scalar::ONE)))), p1.0 * (kr + Scalar::ONE)),
+                    ("pop_identity_rejects", "identity".into(), SigsS::identity()),
+                ];
+                for (class, what, q) in perts {
+                    if q == p1.0 {
+                        continue;
+                    }
+                    let pp = ProofOfPossession::<C>(q);
+                    sigs_decide(s, class, format!("{}|{}", key, hexpt(&q)), false, sigs_try(|| pp.verify(pk).is_ok()),
+                        sigs_with(det.clone(), json!({"perturbation": what, "proof": hexpt(&q)})));
+                }
+                // derived keys: -pk, pk+G with the honest proof
+                for (what, q) in [("-pk", -pk.0), ("pk+G", pk.0 + SigsP::generator()), ("2*pk", pk.0.double())] {
+                    sigs_decide(s, "pop_rejected_for_derived_key", format!("{}|{}", key, hexpt(&q)), false,
+                        sigs_try(|| p1.verify(PublicKey::<C>(q)).is_ok()),
+                        sigs_with(det.clone(), json!({"perturbation": what, "pk": hexpt(&q), "proof": hexpt(&p1.0)})));
+                }
+                proofs.push(Some(p1.0));
+            }
+            // all ordered pairs of distinct keys
+            for (i, ki) in pool.iter().enumerate() {
+                let Some(pi) = proofs[i] else { continue };
+                for (j, kj) in pool.iter().enumerate() {
+                    if i == j || ki == kj {
+                        continue;
+                    }
+                    let pkj = sk_of(kj).public_key();
+                    let pp = ProofOfPossession::<C>(pi);
+                    sigs_decide(s, "pop_rejected_for_other_key", format!("{}|{}|{}", G1, gen::hs(ki), gen::hs(kj)), false,
+                        sigs_try(|| pp.verify(pkj).is_ok()),
+                        json!({"impl": sigs_imp(), "proof_of_sk": gen::hs(ki), "verified_against_sk": gen::hs(kj), "proof": hexpt(&pi)}));
+                }
+            }
+            // the zero key cannot produce one
+            let z = SecretKey::<C>(Scalar::ZERO);
+            let r = sigs_try(|| z.proof_of_possession().is_ok());
+            sigs_decide(s, "pop_zero_key_refused", format!("{}|zero", G1), false, r, json!({"impl": sigs_imp(), "sk": "00"}));
+        }
+
+        // ------------------------------------------------------------------ C07
+        fn sigs_c07_verify(s: &mut Search, class: &str, expect: bool, scheme: u8, msp: SigsS, mpk: SigsP, msg: &[u8], det: serde_json::Value) {
+            let ms = sigs_mk_multi(scheme, msp);
+            let got = sigs_try(|| ms.verify(MultiPublicKey::<C>(mpk), msg).is_ok());
+            let (pkb, sgb) = (sigs_pb(&mpk), sigs_sb(&msp));
+            // Basic / PoP only here: no augmentation
+            let refd = ref_core_verify(G1, &pkb, &sgb, msg, &gen::dst(G1, scheme));
+            let det = sigs_with(det, json!({"multi_pk": gen::hx(&pkb), "multi_sig": gen::hx(&sgb), "verify_msg": sigs_mh(msg)}));
+            let key = format!("{}|{}|{}|{}|{}", G1, scheme, gen::hx(&pkb), gen::hx(&sgb), gen::hx(&sha256(msg)));
+            sigs_decide(s, class, key.clone(), expect, got, det.clone());
+            sigs_vs_ref(s, key, got, refd, det);
+        }
+
+        pub fn c07(s: &mut Search, rng: &mut Prng, thorough: bool) {
+            let ns: Vec<usize> = if thorough { (2..=64).collect() } else { vec![2, 3, 4, 5, 7, 8, 16, 33, 64] };
+            for &n in &ns {
+                for scheme in [0u8, 2u8] {
+                    let mut ks: Vec<RScalar> = (0..n + 1).map(|_| rng.scalar()).collect();
+                    if n == 2 && scheme == 0 {
+                        ks[0] = RScalar::ONE;
+                        ks[1] = -RScalar::from(2u64);
+                    }
+                    let extra = ks.pop().unwrap();
+                    if ks.iter().fold(RScalar::ZERO, |a, b| a + b) == RScalar::ZERO {
+                        continue; // accumulated key would be the identity (C04), not an honest C07 tuple
+                    }
+                    let lens = gen::msg_lengths(false);
+                    let m = gen::message(rng, lens[(n + scheme as usize) % lens.len()]);
+                    let m2 = sigs_other_msg(rng, &m);
+                    let base = json!({"impl": sigs_imp(), "scheme": gen::SCH[scheme as usize], "n": n,
+                        "signers": ks.iter().map(gen::hs).collect::<Vec<_>>(), "msg": sigs_mh(&m), "msg_len": m.len()});
+                    let bkey = format!("{}|{}|{}|{}", G1, scheme, n, gen::hs(&ks[0]));
+                    let mut pts = vec![];
+                    for k in &ks {
+                        match sigs_sign(s, k, scheme, &m) {
+                            Some(p) => pts.push(p),
+                            None => break,
+                        }
+                    }
+                    if pts.len() != n {
+                        continue;
+                    }
+                    let sigs: Vec<Signature<C>> = pts.iter().map(|p| sigs_mk(scheme, *p)).collect();
+                    let pks: Vec<PublicKey<C>> = ks.iter().map(|k| sk_of(k).public_key()).collect();
+                    let ms = match sigs_try(|| MultiSignature::<C>::from_signatures(&sigs)) {
+                        Ok(Ok(ms)) => {
+                            s.case("multisig_accumulates", bkey.clone(), true, base.clone());
+                            ms
+                        }
+                        Ok(Err(_)) => {
+                            s.case("multisig_accumulates", bkey.clone(), false, base.clone());
+                            continue;
+                        }
+                        Err(()) => {
+                            s.case("multisig_accumulates_panicked", bkey.clone(), false, base.clone());
+                            continue;
+                        }
+                    };
+                    let msp = *ms.as_raw_value();
+                    let same_variant = matches!((&ms, scheme), (MultiSignature::Basic(_), 0) | (MultiSignature::ProofOfPossession(_), 2));
+                    s.case("multisig_keeps_scheme", bkey.clone(), same_variant, base.clone());
+                    // equals the plain group sum (reference backend)
+                    let parts: Vec<Vec<u8>> = pts.iter().map(sigs_sb).collect();
+                    let sum = crate::search_sigs::sigs_ref_sum(G1, &parts);
+                    s.case("multisig_equals_group_sum", bkey.clone(), sum.as_deref() == Some(sigs_sb(&msp).as_slice()),
+                        sigs_with(base.clone(), json!({"multi_sig": hexpt(&msp), "reference_sum": sum.as_ref().map(|b| gen::hx(b))})));
+                    let mpk = match sigs_try(|| MultiPublicKey::<C>::from_public_keys(&pks)) {
+                        Ok(k) => k.0,
+                        Err(()) => {
+                            s.case("multi_public_key_panicked", bkey.clone(), false, base.clone());
+                            continue;
+                        }
+                    };
+                    sigs_c07_verify(s, "multisig_verifies_for_exact_signers", true, scheme, msp, mpk, &m, sigs_with(base.clone(), json!({"perturbation": "none"})));
+                    // a permutation of the signer list gives the same key
+                    let mut perm = pks.clone();
+                    sigs_shuffle(rng, &mut perm);
+                    if let Ok(k) = sigs_try(|| MultiPublicKey::<C>::from_public_keys(&perm)) {
+                        sigs_c07_verify(s, "multisig_verifies_for_permuted_signers", true, scheme, msp, k.0, &m, sigs_with(base.clone(), json!({"perturbation": "signer list permuted"})));
+                    }
+                    sigs_c07_verify(s, "multisig_other_message_rejects", false, scheme, msp, mpk, &m2, sigs_with(base.clone(), json!({"perturbation": "other message"})));
+                    if !m.is_empty() {
+                        let mut m3 = m.clone();
+                        let (bi, bt) = (rng.below(m.len() as u64) as usize, rng.below(8) as u8);
+                        m3[bi] ^= 1 << bt;
+                        sigs_c07_verify(s, "multisig_other_message_rejects", false, scheme, msp, mpk, &m3, sigs_with(base.clone(), json!({"perturbation": "message bit flip", "byte": bi, "bit": bt})));
+                    }
+                    let epk = sk_of(&extra).public_key();
+                    // signer added to the key
+                    let mut added = pks.clone();
+                    added.push(epk);
+                    if let Ok(k) = sigs_try(|| MultiPublicKey::<C>::from_public_keys(&added)) {
+                        sigs_c07_verify(s, "multisig_signer_added_rejects", false, scheme, msp, k.0, &m, sigs_with(base.clone(), json!({"perturbation": "key of an extra signer added", "extra_sk": gen::hs(&extra)})));
+                    }
+                    // a signer counted twice
+                    let mut twice = pks.clone();
+                    twice.push(pks[0]);
+                    if let Ok(k) = sigs_try(|| MultiPublicKey::<C>::from_public_keys(&twice)) {
+                        sigs_c07_verify(s, "multisig_signer_added_rejects", false, scheme, msp, k.0, &m, sigs_with(base.clone(), json!({"perturbation": "key of signer 0 added a second time"})));
+                    }
+                    for pos in sigs_positions(rng, n, thorough && n <= 8, thorough) {
+                        // signer missing from the key
+                        let mut less = pks.clone();
+                        less.remove(pos);
+                        if let Ok(k) = sigs_try(|| MultiPublicKey::<C>::from_public_keys(&less)) {
+                            sigs_c07_verify(s, "multisig_signer_missing_rejects", false, scheme, msp, k.0, &m, sigs_with(base.clone(), json!({"perturbation": "key of signer omitted", "index": pos})));
+                        }
+                        // signer replaced in the key
+                        let mut repl = pks.clone();
+                        repl[pos] = epk;
+                        if let Ok(k) = sigs_try(|| MultiPublicKey::<C>::from_public_keys(&repl)) {
+                            sigs_c07_verify(s, "multisig_signer_replaced_rejects", false, scheme, msp, k.0, &m, sigs_with(base.clone(), json!({"perturbation": "key of signer replaced", "index": pos, "replacement_sk": gen::hs(&extra)})));
+                        }
+                        // a part missing from the multi-signature, verified against the full key
+                        if n >= 3 {
+                            let mut fewer = sigs.clone();
+                            fewer.remove(pos);
+                            if let Ok(Ok(ms2)) = sigs_try(|| MultiSignature::<C>::from_signatures(&fewer)) {
+                                sigs_c07_verify(s, "multisig_part_missing_rejects", false, scheme, *ms2.as_raw_value(), mpk, &m, sigs_with(base.clone(), json!({"perturbation": "signature of signer omitted", "index": pos})));
+                            }
+                        }
+                    }
+                }
+            }
+            // accumulation input: every scheme combination for n = 2, 3 ; fewer than two
+            let k = rng.scalar();
+            let m = rng.bytes(20);
+            let one: Vec<Option<SigsS>> = (0..3u8).map(|sc| sigs_sign(s, &k, sc, &m)).collect();
+            if one.iter().all(|p| p.is_some()) {
+                for n in 2..=3usize {
+                    for combo in 0..3usize.pow(n as u32) {
+                        let labels: Vec<u8> = (0..n).map(|i| ((combo / 3usize.pow(i as u32)) % 3) as u8).collect();
+                        let list: Vec<Signature<C>> = labels.iter().map(|&l| sigs_mk(l, one[l as usize].unwrap())).collect();
+                        let expect = labels.iter().all(|&l| l == labels[0]) && labels[0] != 1;
+                        let class = if expect { "multisig_accumulates" } else if labels.iter().all(|&l| l == 1) { "multisig_refuses_aug" } else { "multisig_refuses_mixed_schemes" };
+                        let got = sigs_try(|| MultiSignature::<C>::from_signatures(&list).is_ok());
+                        sigs_decide(s, class, format!("{}|combo|{:?}", G1, labels), expect, got,
+                            json!({"impl": sigs_imp(), "sk": gen::hs(&k), "msg": gen::hx(&m), "schemes": labels.iter().map(|&l| gen::SCH[l as usize]).collect::<Vec<_>>() }));
+                    }
+                }
+                // longer lists with a single foreign / Aug element at each of first, middle, last
+                for n in [5usize, 64] {
+                    for (host, guest) in [(0u8, 1u8), (0, 2), (2, 0), (2, 1), (1, 0), (1, 2), (1, 1)] {
+                        for pos in [0, n / 2, n - 1] {
+                            let list: Vec<Signature<C>> = (0..n).map(|i| { let l = if i == pos { guest } else { host }; sigs_mk(l, one[l as usize].unwrap()) }).collect();
+                            let class = if host == 1 && guest == 1 { "multisig_refuses_aug" } else { "multisig_refuses_mixed_schemes" };
+                            let got = sigs_try(|| MultiSignature::<C>::from_signatures(&list).is_ok());
+                            sigs_decide(s, class, format!("{}|long|{}|{}|{}|{}", G1, n, host, guest, pos), false, got,
+                                json!({"impl": sigs_imp(), "sk": gen::hs(&k), "msg": gen::hx(&m), "n": n, "scheme_of_list": gen::SCH[host as usize], "scheme_at_index": gen::SCH[guest as usize], "index": pos}));
+                        }
+                    }
+                }
+                for sc in 0..3u8 {
+                    let empty: Vec<Signature<C>> = vec![];
+                    sigs_decide(s, "multisig_refuses_fewer_than_two", format!("{}|empty|{}", G1, sc), false,
+                        sigs_try(|| MultiSignature::<C>::from_signatures(&empty).is_ok()), json!({"impl": sigs_imp(), "n": 0}));
+                    let single = vec![sigs_mk(sc, one[sc as usize].unwrap())];
+                    sigs_decide(s, "multisig_refuses_fewer_than_two", format!("{}|single|{}", G1, sc), false,
+                        sigs_try(|| MultiSignature::<C>::from_signatures(&single).is_ok()),
+                        json!({"impl": sigs_imp(), "n": 1, "scheme": gen::SCH[sc as usize], "sk": gen::hs(&k), "msg": gen::hx(&m)}));
+                }
+            }
+        }
+
+        // ------------------------------------------------------------------ C02
+        /// one (pk, msg, label, sig) tuple: library decision vs expectation and vs the reference
+        fn sigs_c02_eval(s: &mut Search, base: &serde_json::Value, class: &str, pert: String, label: u8,
+                         pkp: SigsP, pk_dlog: &RScalar, sp: SigsS, msg: &[u8], expect: bool) {
+            let sig = sigs_mk(label, sp);
+            let pk = PublicKey::<C>(pkp);
+            let got = sigs_try(|| sig.verify(&pk, msg).is_ok());
+            let (pkb, sgb) = (sigs_pb(&pkp), sigs_sb(&sp));
+            let am = gen::amsg(G1, label, pk_dlog, msg);
+            let refd = ref_core_verify(G1, &pkb, &sgb, &am, &gen::dst(G1, label));
+            let det = sigs_with(base.clone(), json!({"perturbation": pert, "verify_scheme": gen::SCH[label as usize],
+                "verify_pk": gen::hx(&pkb), "verify_pk_dlog": gen::hs(pk_dlog), "verify_sig": gen::hx(&sgb),
+                "verify_msg": sigs_mh(msg), "verify_msg_len": msg.len()}));
+            let key = format!("{}|{}|{}|{}|{}", G1, label, gen::hx(&pkb), gen::hx(&sgb), gen::hx(&sha256(msg)));
+            sigs_decide(s, class, key.clone(), expect, got, det.clone());
+            sigs_vs_ref(s, key, got, refd, det);
+        }
+
+        fn sigs_c02_tuple(s: &mut Search, rng: &mut Prng, thorough: bool, k: &RScalar, k2: &RScalar, scheme: u8, m: &[u8]) {
+            let Some(p) = sigs_sign(s, k, scheme, m) else { return };
+            let pk = sk_of(k).public_key().0;
+            let pk2 = sk_of(k2).public_key().0;
+            let base = json!({"impl": sigs_imp(), "sk": gen::hs(k), "scheme": gen::SCH[scheme as usize], "msg": sigs_mh(m), "msg_len": m.len()});
+            let gs = SigsS::generator();
+            let gp = SigsP::generator();
+            let len = m.len();
+            let kr = rng.scalar();
+            let krl = sigs_sc(&kr);
+            sigs_c02_eval(s, &base, "honest_accepts", "none".into(), scheme, pk, k, p, m, true);
+            // --- signature replaced
+            sigs_c02_eval(s, &base, "sig_plus_kg_rejects", "sig+G".into(), scheme, pk, k, p + gs, m, false);
+            sigs_c02_eval(s, &base, "sig_plus_kg_rejects", "sig-G".into(), scheme, pk, k, p - gs, m, false);
+            sigs_c02_eval(s, &base, "sig_plus_kg_rejects", format!("sig+k*G k={}", gen::hs(&kr)), scheme, pk, k, p + gs * krl, m, false);
+            sigs_c02_eval(s, &base, "sig_negated_rejects", "-sig".into(), scheme, pk, k, -p, m, false);
+            sigs_c02_eval(s, &base, "sig_scaled_rejects", "2*sig".into(), scheme, pk, k, p.double(), m, false);
+            sigs_c02_eval(s, &base, "sig_scaled_rejects", "0*sig".into(), scheme, pk, k, p * Scalar::ZERO, m, false);
+            if kr != RScalar::ONE {
+                sigs_c02_eval(s, &base, "sig_scaled_rejects", format!("k*sig k={}", gen::hs(&kr)), scheme, pk, k, p * krl, m, false);
+            }
+            let om = sigs_other_msg(rng, m);
+            if let Some(po) = sigs_sign(s, k, scheme, &om) {
+                sigs_c02_eval(s, &base, "sig_of_other_msg_rejects", format!("signature of the same key over {}", sigs_mh(&om)), scheme, pk, k, po, m, false);
+            }
+            let p2 = if k2 != k { sigs_sign(s, k2, scheme, m) } else { None };
+            if let Some(p2) = p2 {
+                sigs_c02_eval(s, &base, "sig_of_other_key_rejects", format!("signature by sk {}", gen::hs(k2)), scheme, pk, k, p2, m, false);
+                sigs_c02_eval(s, &base, "pk_of_other_key_rejects", format!("public key of sk {}", gen::hs(k2)), scheme, pk2, k2, p, m, false);
+            }
+            // --- message changed
+            if len > 0 {
+                let mut flips = vec![(0usize, 0u8), (len - 1, 7u8), (rng.below(len as u64) as usize, rng.below(8) as u8)];
+                if thorough {
+                    flips.push((rng.below(len as u64) as usize, rng.below(8) as u8));
+                    flips.push((len / 2, 3));
+                }
+                flips.sort();
+                flips.dedup();
+                for (bi, bt) in flips {
+                    let mut mm = m.to_vec();
+                    mm[bi] ^= 1 << bt;
+                    sigs_c02_eval(s, &base, "msg_bitflip_rejects", format!("bit flip byte {} bit {}", bi, bt), scheme, pk, k, p, &mm, false);
+                }
+                sigs_c02_eval(s, &base, "msg_truncated_rejects", "last byte dropped".into(), scheme, pk, k, p, &m[..len - 1], false);
+                if len > 1 {
+                    sigs_c02_eval(s, &base, "msg_truncated_rejects", "first byte dropped".into(), scheme, pk, k, p, &m[1..], false);
+                    sigs_c02_eval(s, &base, "msg_empty_vs_nonempty_rejects", "message replaced by the empty message".into(), scheme, pk, k, p, b"", false);
+                }
+            } else {
+                sigs_c02_eval(s, &base, "msg_empty_vs_nonempty_rejects", "empty message replaced by 32 random bytes".into(), scheme, pk, k, p, &rng.bytes(32), false);
+            }
+            let mut ext = m.to_vec();
+            ext.push(0);
+            sigs_c02_eval(s, &base, "msg_extended_rejects", "0x00 appended".into(), scheme, pk, k, p, &ext, false);
+            let mut ext = vec![0u8];
+            ext.extend_from_slice(m);
+            sigs_c02_eval(s, &base, "msg_extended_rejects", "0x00 prepended".into(), scheme, pk, k, p, &ext, false);
+            let mut ext = m.to_vec();
+            let tl = 1 + rng.below(40) as usize;
+            let tail = rng.bytes(tl);
+            ext.extend_from_slice(&tail);
+            sigs_c02_eval(s, &base, "msg_extended_rejects", format!("{} appended", gen::hx(&tail)), scheme, pk, k, p, &ext, false);
+            // --- public key replaced
+            sigs_c02_eval(s, &base, "pk_plus_g_rejects", "pk+G".into(), scheme, pk + gp, &(k + RScalar::ONE), p, m, false);
+            sigs_c02_eval(s, &base, "pk_negated_rejects", "-pk".into(), scheme, -pk, &(-k), p, m, false);
+            // --- scheme label replaced
+            for l in 0..3u8 {
+                if l != scheme {
+                    sigs_c02_eval(s, &base, "scheme_relabel_rejects", format!("signature relabelled {}", gen::SCH[l as usize]), l, pk, k, p, m, false);
+                }
+            }
+            // --- algebraically related tuples
+            let aug = scheme == 1;
+            if let Some(p2) = p2 {
+                let ksum = k + k2;
+                let (class, expect) = if ksum == RScalar::ZERO { ("related_key_sum_identity_rejects", false) }
+                    else if aug { ("related_key_sum_aug_rejects", false) } else { ("related_key_sum_accepts", true) };
+                sigs_c02_eval(s, &base, class, format!("pk+pk2, sig+sig2 with sk2 {}", gen::hs(k2)), scheme, pk + pk2, &ksum, p + p2, m, expect);
+            }
+            let (class, expect) = if aug { ("related_scaled_pair_aug_rejects", false) } else { ("related_scaled_pair_accepts", true) };
+            sigs_c02_eval(s, &base, class, format!("t*pk, t*sig t={}", gen::hs(&kr)), scheme, pk * krl, &(k * kr), p * krl, m, expect && kr != RScalar::ZERO);
+            let (class, expect) = if aug { ("related_negated_pair_aug_rejects", false) } else { ("related_negated_pair_accepts", true) };
+            sigs_c02_eval(s, &base, class, "-pk, -sig".into(), scheme, -pk, &(-k), -p, m, expect);
+            // --- same points, other projective representatives
+            let q = gs * krl;
+            let kinv = krl.invert().unwrap();
+            sigs_c02_eval(s, &base, "reprojected_accepts", "sig:=(sig+Q)-Q, pk:=(t*pk)*t^-1".into(), scheme, (pk * krl) * kinv, k, (p + q) - q, m, true);
+            sigs_c02_eval(s, &base, "reprojected_accepts", "sig:=(t*sig)*t^-1, pk:=(pk+G)-G".into(), scheme, (pk + gp) - gp, k, (p * krl) * kinv, m, true);
+        }
+
+        pub fn c02(s: &mut Search, rng: &mut Prng, thorough: bool) {
+            let mut keys = gen::edge_scalars();
+            for _ in 0..(if thorough { 17 } else { 2 }) {
+                keys.push(rng.scalar());
+            }
+            let lens = gen::msg_lengths(thorough);
+            let per = if thorough { 3 } else { 1 };
+            for (ki, k) in keys.iter().enumerate() {
+                // partner key: 1 <-> r-1 and 2 <-> r-2 (sums to the identity), otherwise the next one
+                let k2 = if ki < 4 { -*k } else { keys[(ki + 1) % keys.len()] };
+                for scheme in 0..3u8 {
+                    for j in 0..per {
+                        let len = lens[(ki * 3 + scheme as usize + j * 5) % lens.len()];
+                        let m = gen::message(rng, len);
+                        sigs_c02_tuple(s, rng, thorough, k, &k2, scheme, &m);
+                        if ki < 4 && j == 0 {
+                            // the same edge key also with an ordinary partner
+                            let k3 = keys[keys.len() - 1 - ki % 2];
+                            let m = gen::message(rng, lens[(ki + 7 * scheme as usize) % lens.len()]);
+                            if thorough || scheme as usize == ki % 3 {
+                                sigs_c02_tuple(s, rng, thorough, k, &k3, scheme, &m);
+                            }
+                        }
+                    }
+                }
+            }
+        }
+        // ------------------------------------------------------------------ C04
+        /// every entry of `rows` must be refused: (class, what was substituted, closure result = "succeeded?")
+        fn sigs_refused(s: &mut Search, class: &str, key: String, got: Result<bool, ()>, det: serde_json::Value) {
+            sigs_decide(s, class, key, false, got, det);
+        }
+
+        fn sigs_c04_signature(s: &mut Search, rng: &mut Prng, k: &RScalar, m: &[u8]) {
+            let pk = sk_of(k).public_key();
+            let (idp, ids) = (SigsP::identity(), SigsS::identity());
+            for sc in 0..3u8 {
+                let Some(p) = sigs_sign(s, k, sc, m) else { continue };
+                let det = json!({"impl": sigs_imp(), "sk": gen::hs(k), "scheme": gen::SCH[sc as usize], "msg": sigs_mh(m)});
+                let key = format!("{}|{}|{}|{}", G1, gen::hs(k), sc, gen::hx(&sha256(m)));
+                // Signature::verify
+                for (what, pkp, sp) in [("identity public key, honest signature", idp, p), ("honest public key, identity signature", pk.0, ids), ("identity public key and identity signature (equation holds trivially)", idp, ids)] {
+                    let sg = sigs_mk(sc, sp);
+                    sigs_refused(s, "signature_verify_identity_refused", format!("{}|{}", key, what), sigs_try(|| sg.verify(&PublicKey::<C>(pkp), m).is_ok()),
+                        sigs_with(det.clone(), json!({"substituted": what})));
+                    // MultiSignature::verify with the same raw substitution
+                    let ms = sigs_mk_multi(sc, sp);
+                    sigs_refused(s, "multisig_verify_identity_refused", format!("{}|{}", key, what), sigs_try(|| ms.verify(MultiPublicKey::<C>(pkp), m).is_ok()),
+                        sigs_with(det.clone(), json!({"substituted": what})));
+                }
+                // accumulated multi-key that is the identity: signers k and -k (and a triple a, b, -(a+b))
+                if sc != 1 {
+                    let a = rng.scalar();
+                    for set in [vec![*k, -*k], vec![*k, a, -(*k + a)]] {
+                        let pks: Vec<PublicKey<C>> = set.iter().map(|x| sk_of(x).public_key()).collect();
+                        let parts: Vec<Signature<C>> = set.iter().filter_map(|x| sigs_sign(s, x, sc, m)).map(|q| sigs_mk(sc, q)).collect();
+                        if parts.len() != set.len() {
+                            continue;
+                        }
+                        let d = sigs_with(det.clone(), json!({"substituted": "signer keys sum to zero: accumulated key and multi-signature are the identity", "signers": set.iter().map(gen::hs).collect::<Vec<_>>()}));
+                        let r = sigs_try(|| {
+                            let mpk = MultiPublicKey::<C>::from_public_keys(&pks);
+                            match MultiSignature::<C>::from_signatures(&parts) {
+                                Ok(ms) => ms.verify(mpk, m).is_ok(),
+                                Err(_) => false,
+                            }
+                        });
+                        sigs_refused(s, "multisig_accumulated_identity_refused", format!("{}|acc{}", key, set.len()), r, d.clone());
+                        // identity accumulated key with an otherwise honest multi-signature of other signers
+                        let r = sigs_try(|| sigs_mk_multi(sc, p).verify(MultiPublicKey::<C>::from_public_keys(&pks), m).is_ok());
+                        sigs_refused(s, "multisig_accumulated_identity_refused", format!("{}|acc{}honest", key, set.len()), r, d);
+                    }
+                }
+            }
+            // ProofOfPossession::verify
+            if let Ok(Ok(pop)) = sigs_try(|| sk_of(k).proof_of_possession()) {
+                let det = json!({"impl": sigs_imp(), "sk": gen::hs(k)});
+                for (what, pkp, sp) in [("identity public key, honest proof", idp, pop.0), ("honest public key, identity proof", pk.0, ids), ("identity public key and identity proof", idp, ids)] {
+                    let pp = ProofOfPossession::<C>(sp);
+                    sigs_refused(s, "pop_verify_identity_refused", format!("{}|{}|{}", G1, gen::hs(k), what), sigs_try(|| pp.verify(PublicKey::<C>(pkp)).is_ok()),
+                        sigs_with(det.clone(), json!({"substituted": what})));
+                }
+            }
+        }
+
+        fn sigs_c04_aggregate(s: &mut Search, rng: &mut Prng, n: usize, sc: u8) {
+            let ks: Vec<RScalar> = (0..n).map(|_| rng.scalar()).collect();
+            let msgs = sigs_c06_msgs(rng, n);
+            let mut pts = vec![];
+            for (k, m) in ks.iter().zip(&msgs) {
+                match sigs_sign(s, k, sc, m) {
+                    Some(p) => pts.push(p),
+                    None => return,
+                }
+            }
+            let full = pts.iter().fold(SigsS::identity(), |a, b| a + b);
+            let honest: Vec<(PublicKey<C>, Vec<u8>)> = ks.iter().zip(&msgs).map(|(k, m)| (sk_of(k).public_key(), m.clone())).collect();
+            let det = json!({"impl": sigs_imp(), "scheme": gen::SCH[sc as usize], "n": n,
+                "pairs": ks.iter().zip(&msgs).map(|(k, m)| json!({"sk": gen::hs(k), "msg": sigs_mh(m)})).collect::<Vec<_>>()});
+            let key = format!("{}|{}|{}|{}", G1, sc, n, gen::hs(&ks[0]));
+            let idk = PublicKey::<C>(SigsP::identity());
+            for pos in 0..n {
+                let mut data = honest.clone();
+                data[pos].0 = idk;
+                let rest = full - pts[pos];
+                for (what, ag) in [("honest full aggregate", full), ("aggregate of the other signers (equation holds trivially)", rest)] {
+                    let a = sigs_mk_agg(sc, ag);
+                    sigs_refused(s, "aggregate_verify_identity_key_refused", format!("{}|{}|{}", key, pos, what), sigs_try(|| a.verify(&data).is_ok()),
+                        sigs_with(det.clone(), json!({"substituted": "identity public key", "index": pos, "aggregate": hexpt(&ag), "aggregate_is": what})));
+                }
+                // identity key inserted as an additional pair (honest aggregate stays algebraically valid)
+                let mut data = honest.clone();
+                data.insert(pos, (idk, rng.bytes(9)));
+                let a = sigs_mk_agg(sc, full);
+                sigs_refused(s, "aggregate_verify_identity_key_refused", format!("{}|{}|inserted", key, pos), sigs_try(|| a.verify(&data).is_ok()),
+                    sigs_with(det.clone(), json!({"substituted": "identity public key inserted as an extra pair (equation holds trivially)", "index": pos, "aggregate": hexpt(&full)})));
+            }
+            let a = sigs_mk_agg(sc, SigsS::identity());
+            sigs_refused(s, "aggregate_verify_identity_signature_refused", format!("{}|idsig", key), sigs_try(|| a.verify(&honest).is_ok()),
+                sigs_with(det.clone(), json!({"substituted": "identity aggregate signature, honest pairs"})));
+            let allid: Vec<(PublicKey<C>, Vec<u8>)> = msgs.iter().map(|m| (idk, m.clone())).collect();
+            sigs_refused(s, "aggregate_verify_identity_signature_refused", format!("{}|allid", key), sigs_try(|| a.verify(&allid).is_ok()),
+                sigs_with(det.clone(), json!({"substituted": "identity aggregate signature and identity at every key (equation holds trivially)"})));
+            let none: Vec<(PublicKey<C>, Vec<u8>)> = vec![];
+            sigs_refused(s, "aggregate_verify_identity_signature_refused", format!("{}|{}|empty", G1, sc), sigs_try(|| a.verify(&none).is_ok()),
+                json!({"impl": sigs_imp(), "scheme": gen::SCH[sc as usize], "substituted": "identity aggregate signature, empty pair list (equation holds trivially)"}));
+        }
+
+        fn sigs_c04_pok(s: &mut Search, rng: &mut Prng, k: &RScalar, m: &[u8]) {
+            let pk = sk_of(k).public_key();
+            let skl = sigs_sc(k);
+            let (idp, ids) = (SigsP::identity(), SigsS::identity());
+            for sc in 0..3u8 {
+                let a = sigs_hash(m, sc);
+                let sig = a * skl; // what the proof equation is about (for Aug this is not `sign`, see C10)
+                let x = sigs_sc(&rng.scalar());
+                let y = sigs_sc(&rng.scalar());
+                let det = json!({"impl": sigs_imp(), "sk": gen::hs(k), "scheme": gen::SCH[sc as usize], "msg": sigs_mh(m), "x": hex::encode(bsc_be(&x)), "y": hex::encode(bsc_be(&y))});
+                let key = format!("{}|{}|{}|{}", G1, gen::hs(k), sc, gen::hx(&sha256(m)));
+                let (u, v) = (a * x, -(sig * (x + y)));
+                let rows: Vec<(&str, SigsS, SigsS, SigsP, Scalar)> = vec![
+                    ("identity commitment, rest honest", ids, v, pk.0, y),
+                    ("identity proof, rest honest", u, ids, pk.0, y),
+                    ("identity public key, rest honest", u, v, idp, y),
+                    ("zero challenge, rest honest", u, v, pk.0, Scalar::ZERO),
+                    ("identity commitment with v = -y*sig (equation holds)", ids, -(sig * y), pk.0, y),
+                    ("identity proof with u = -y*H(m) (equation holds)", -(a * y), ids, pk.0, y),
+                    ("identity public key with identity proof (equation holds)", u, ids, idp, y),
+                    ("zero challenge with v = -x*sig (equation holds)", u, -(sig * x), pk.0, Scalar::ZERO),
+                    ("everything identity / zero", ids, ids, idp, Scalar::ZERO),
+                ];
+                for (what, uu, vv, pkp, yy) in rows {
+                    let pok = sigs_mk_pok(sc, uu, vv);
+                    sigs_refused(s, "proof_of_knowledge_identity_or_zero_refused", format!("{}|{}", key, what),
+                        sigs_try(|| pok.verify(PublicKey::<C>(pkp), m, ProofCommitmentChallenge::<C>(yy)).is_ok()),
+                        sigs_with(det.clone(), json!({"substituted": what, "u": hexpt(&uu), "v": hexpt(&vv), "pk": hexpt(&pkp)})));
+                }
+                // timestamp variant (challenge derived from u and t)
+                let t = 1_000_000_000_000u64 + rng.below(100000);
+                let yt = <C as BlsSignatureProof>::compute_y(u, t);
+                let y0 = <C as BlsSignatureProof>::compute_y(ids, t);
+                let vt = -(sig * (x + yt));
+                let rows: Vec<(&str, SigsS, SigsS, SigsP)> = vec![
+                    ("identity commitment, rest honest", ids, vt, pk.0),
+                    ("identity commitment with v = -y(identity,t)*sig (equation holds)", ids, -(sig * y0), pk.0),
+                    ("identity proof, rest honest", u, ids, pk.0),
+                    ("identity public key, rest honest", u, vt, idp),
+                    ("identity public key with identity proof (equation holds)", u, ids, idp),
+                ];
+                for (what, uu, vv, pkp) in rows {
+                    for timeout in [None, Some(u64::MAX)] {
+                        let pok = ProofOfKnowledgeTimestamp::<C> { proof: sigs_mk_pok(sc, uu, vv), timestamp: t };
+                        sigs_refused(s, "proof_of_knowledge_timestamp_identity_refused", format!("{}|{}|{:?}", key, what, timeout),
+                            sigs_try(|| pok.verify(PublicKey::<C>(pkp), m, timeout).is_ok()),
+                            sigs_with(det.clone(), json!({"substituted": what, "timestamp": t, "timeout_ms": timeout, "u": hexpt(&uu), "v": hexpt(&vv), "pk": hexpt(&pkp)})));
+                    }
+                }
+            }
+        }
+
+        fn sigs_c04_shares(s: &mut Search, rng: &mut Prng, k: &RScalar, m: &[u8]) {
+            use blsful::vsss_rs::Share as _;
+            let idpk = <C as Pairing>::PublicKeyShare::with_identifier_and_value(1u8, &sigs_pb(&SigsP::identity()));
+            let okpk = <C as Pairing>::PublicKeyShare::with_identifier_and_value(1u8, &sigs_pb(&sk_of(k).public_key().0));
+            let idsg = <C as Pairing>::SignatureShare::with_identifier_and_value(1u8, &sigs_sb(&SigsS::identity()));
+            for sc in 0..3u8 {
+                let Some(p) = sigs_sign(s, k, sc, m) else { continue };
+                let oksg = <C as Pairing>::SignatureShare::with_identifier_and_value(1u8, &sigs_sb(&p));
+                let mk = |v: <C as Pairing>::SignatureShare| match sc { 0 => SignatureShare::<C>::Basic(v), 1 => SignatureShare::<C>::MessageAugmentation(v), _ => SignatureShare::<C>::ProofOfPossession(v) };
+                let det = json!({"impl": sigs_imp(), "share_value_sk": gen::hs(k), "scheme": gen::SCH[sc as usize], "msg": sigs_mh(m), "identifier": 1});
+                let key = format!("{}|{}|{}|{}", G1, gen::hs(k), sc, gen::hx(&sha256(m)));
+                for (what, pks, sgs) in [("identity key share payload, honest signature share", idpk, oksg), ("honest key share, identity signature share payload", okpk, idsg), ("identity payloads in both", idpk, idsg)] {
+                    let (pks, sgs) = (PublicKeyShare::<C>(pks), mk(sgs));
+                    sigs_refused(s, "public_key_share_verify_identity_refused", format!("{}|{}", key, what), sigs_try(|| pks.verify(&sgs, m).is_ok()),
+                        sigs_with(det.clone(), json!({"substituted": what, "entry": "PublicKeyShare::verify"})));
+                    sigs_refused(s, "public_key_share_verify_identity_refused", format!("{}|{}|sv", key, what), sigs_try(|| sgs.verify(&pks, m).is_ok()),
+                        sigs_with(det.clone(), json!({"substituted": what, "entry": "SignatureShare::verify"})));
+                }
+            }
+            // a secret key share whose value is zero cannot sign
+            for id in [1u8, 2, 255] {
+                let mut raw = [0u8; 33];
+                raw[0] = id;
+                let sh = SecretKeyShare::<C>(raw);
+                for sc in 0..3u8 {
+                    sigs_refused(s, "zero_share_sign_refused", format!("{}|{}|{}|{}", G1, id, sc, gen::hx(&sha256(m))), sigs_try(|| sh.sign(scheme_of(sc), m).is_ok()),
+                        json!({"impl": sigs_imp(), "share": gen::hx(&raw), "scheme": gen::SCH[sc as usize], "msg": sigs_mh(m)}));
+                }
+            }
+        }
+
+        fn sigs_c04_ciphertexts(s: &mut Search, rng: &mut Prng, k: &RScalar, m: &[u8]) {
+            let sk = sk_of(k);
+            let pk = sk.public_key();
+            let (idp, ids) = (SigsP::identity(), SigsS::identity());
+            for sc in 0..3u8 {
+                let r = sigs_sc(&rng.scalar());
+                let ct = sigs_signcrypt_seal(pk.0, m, sc, r);
+                let key = format!("{}|{}|{}|{}", G1, gen::hs(k), sc, gen::hx(&sha256(m)));
+                for (what, uu, ww) in [("u := identity", idp, ct.w), ("w := identity", ct.u, ids), ("u and w := identity (pairing equation holds trivially)", idp, ids)] {
+                    let mut c2 = ct.clone();
+                    c2.u = uu;
+                    c2.w = ww;
+                    let det = json!({"impl": sigs_imp(), "sk": gen::hs(k), "substituted": what, "ciphertext": sigs_sc_det(&c2), "blinding_r": hex::encode(bsc_be(&r)), "msg": sigs_mh(m)});
+                    sigs_refused(s, "signcrypt_identity_is_invalid", format!("{}|{}", key, what), sigs_try(|| bool::from(c2.is_valid())), det.clone());
+                    sigs_refused(s, "signcrypt_identity_does_not_decrypt", format!("{}|{}", key, what), sigs_try(|| sigs_opt(c2.decrypt(&sk)).is_some()), det.clone());
+                    let dk = SignCryptDecryptionKey::<C>(c2.u * sigs_sc(k));
+                    sigs_refused(s, "signcrypt_identity_does_not_decrypt", format!("{}|{}|dk", key, what), sigs_try(|| sigs_opt(dk.decrypt(&c2)).is_some()),
+                        sigs_with(det, json!({"via": "SignCryptDecryptionKey"})));
+                }
+                // time lock
+                let id = rng.bytes(12);
+                let alpha = sigs_sc(&rng.scalar());
+                let tc = sigs_timelock_seal(pk.0, m, &id, sc, alpha);
+                let tkey = sigs_hash(&id, sc) * sigs_sc(k);
+                let mut cid = tc.clone();
+                cid.u = idp;
+                for (what, c, kp) in [("ciphertext u := identity, right decryption key", &cid, tkey), ("honest ciphertext, identity signature as key", &tc, ids), ("u := identity and identity key", &cid, ids)] {
+                    let sg = sigs_mk(sc, kp);
+                    sigs_refused(s, "timelock_identity_does_not_decrypt", format!("{}|{}", key, what), sigs_try(|| sigs_opt(c.decrypt(&sg)).is_some()),
+                        json!({"impl": sigs_imp(), "sk": gen::hs(k), "substituted": what, "ciphertext": sigs_tc_det(c), "id": gen::hx(&id), "alpha": hex::encode(bsc_be(&alpha)), "key_point": hexpt(&kp), "msg": sigs_mh(m)}));
+                }
+                // encryption to the identity public key
+                let idk = PublicKey::<C>(idp);
+                sigs_refused(s, "encrypt_to_identity_key_refused", format!("{}|tl|{}|{}", G1, sc, gen::hx(&sha256(m))), sigs_try(|| idk.encrypt_time_lock(scheme_of(sc), m, &id).is_ok()),
+                    json!({"impl": sigs_imp(), "entry": "PublicKey::encrypt_time_lock", "scheme": gen::SCH[sc as usize], "msg": sigs_mh(m), "id": gen::hx(&id)}));
+            }
+            let idk = PublicKey::<C>(idp);
+            sigs_refused(s, "encrypt_to_identity_key_refused", format!("{}|eg|{}", G1, gen::hs(k)), sigs_try(|| idk.encrypt_key_el_gamal(&sk).is_ok()),
+                json!({"impl": sigs_imp(), "entry": "PublicKey::encrypt_key_el_gamal", "encrypted_sk": gen::hs(k)}));
+            sigs_refused(s, "encrypt_to_identity_key_refused", format!("{}|egp|{}", G1, gen::hs(k)), sigs_try(|| idk.encrypt_key_el_gamal_with_proof(&sk).is_ok()),
+                json!({"impl": sigs_imp(), "entry": "PublicKey::encrypt_key_el_gamal_with_proof", "encrypted_sk": gen::hs(k)}));
+        }
+
+        fn sigs_elgamal_challenge(pkp: &SigsP, h: &SigsP, c1: &SigsP, c2: &SigsP, r1: &SigsP, r2: &SigsP) -> Scalar {
+            let items: Vec<(Vec<u8>, Vec<u8>)> = vec![
+                (b"dst".to_vec(), SIGS_ELGAMAL_SALT.to_vec()),
+                (b"base point".to_vec(), sigs_pb(&SigsP::generator())),
+                (b"pk".to_vec(), sigs_pb(pkp)),
+                (b"generator".to_vec(), sigs_pb(h)),
+                (b"c1".to_vec(), sigs_pb(c1)),
+                (b"c2".to_vec(), sigs_pb(c2)),
+                (b"r1".to_vec(), sigs_pb(r1)),
+                (b"r2".to_vec(), sigs_pb(r2)),
+            ];
+            sigs_sc(&fs(b"ElGamalProof", &items, b"challenge"))
+        }
+
+        fn sigs_c04_elgamal(s: &mut Search, rng: &mut Prng, k: &RScalar) {
+            use rand_core::SeedableRng;
+            let sk = sk_of(k);
+            let pk = sk.public_key();
+            let idp = SigsP::identity();
+            let msg_key = rng.scalar(); // the scalar being encrypted
+            let b = sigs_sc(&rng.scalar());
+            let mut seed = [0u8; 32];
+            seed.copy_from_slice(&rng.bytes(32));
+            let det = json!({"impl": sigs_imp(), "recipient_sk": gen::hs(k), "encrypted_scalar": gen::hs(&msg_key), "blinder": hex::encode(bsc_be(&b)), "chacha20_seed": gen::hx(&seed)});
+            let key = format!("{}|{}|{}", G1, gen::hs(k), gen::hs(&msg_key));
+            let honest = sigs_try(|| <C as BlsElGamal>::seal_scalar_with_proof(pk.0, sigs_sc(&msg_key), None, Some(b), rand_chacha::ChaCha20Rng::from_seed(seed)));
+            let mk = |c1: SigsP, c2: SigsP, mp: Scalar, bp: Scalar, ch: Scalar| ElGamalProof::<C> { ciphertext: ElGamalCiphertext::<C> { c1, c2 }, message_proof: mp, blinder_proof: bp, challenge: ch };
+            let mut rows: Vec<(String, ElGamalProof<C>, SigsP)> = vec![];
+            if let Ok(Ok((c1, c2, mp, bp, ch))) = honest {
+                let hp = mk(c1, c2, mp, bp, ch);
+                rows.push(("identity public key, honest proof".into(), hp, idp));
+                rows.push(("c1 := identity".into(), mk(idp, c2, mp, bp, ch), pk.0));
+                rows.push(("c2 := identity".into(), mk(c1, idp, mp, bp, ch), pk.0));
+                rows.push(("c1 and c2 := identity".into(), mk(idp, idp, mp, bp, ch), pk.0));
+                rows.push(("challenge := 0".into(), mk(c1, c2, mp, bp, Scalar::ZERO), pk.0));
+                rows.push(("message_proof := 0".into(), mk(c1, c2, Scalar::ZERO, bp, ch), pk.0));
+                rows.push(("blinder_proof := 0".into(), mk(c1, c2, mp, Scalar::ZERO, ch), pk.0));
+            }
+            // forged proofs on which the challenge equation holds and only the guards stand in the way
+            let h = <C as BlsElGamal>::message_generator();
+            let g = SigsP::generator();
+            let (ml, rl) = (sigs_sc(&msg_key), sigs_sc(&rng.scalar()));
+            {
+                // blinder 0: c1 = identity, c2 = m*H ; r1 = r*G, r2 = r*pk
+                let (c1, c2, r1, r2) = (idp, h * ml, g * rl, pk.0 * rl);
+                let ch = sigs_elgamal_challenge(&pk.0, &h, &c1, &c2, &r1, &r2);
+                rows.push(("forged with blinder 0: c1 = identity, challenge equation holds".into(), mk(c1, c2, ch * ml, rl, ch), pk.0));
+            }
+            {
+                // identity recipient key: c1 = b*G, c2 = m*H ; r1 = r*G, r2 = b*H
+                let (c1, c2, r1, r2) = (g * b, h * ml, g * rl, h * b);
+                let ch = sigs_elgamal_challenge(&idp, &h, &c1, &c2, &r1, &r2);
+                rows.push(("forged for the identity public key, challenge equation holds".into(), mk(c1, c2, b + ch * ml, rl + ch * b, ch), idp));
+            }
+            {
+                // zero message and zero blinder: both ciphertext points are the identity
+                let (c1, c2, r1, r2) = (idp, idp, g * rl, pk.0 * rl);
+                let ch = sigs_elgamal_challenge(&pk.0, &h, &c1, &c2, &r1, &r2);
+                rows.push(("forged with message 0 and blinder 0: c1 = c2 = identity, message_proof = 0, challenge equation holds".into(), mk(c1, c2, Scalar::ZERO, rl, ch), pk.0));
+            }
+            for (what, proof, pkp) in rows {
+                let d = sigs_with(det.clone(), json!({"substituted": what, "c1": hexpt(&proof.ciphertext.c1), "c2": hexpt(&proof.ciphertext.c2),
+                    "message_proof": hex::encode(bsc_be(&proof.message_proof)), "blinder_proof": hex::encode(bsc_be(&proof.blinder_proof)), "challenge": hex::encode(bsc_be(&proof.challenge)), "verify_pk": hexpt(&pkp)}));
+                sigs_refused(s, "elgamal_proof_verify_identity_or_zero_refused", format!("{}|{}", key, what), sigs_try(|| proof.verify(PublicKey::<C>(pkp)).is_ok()), d.clone());
+                if pkp != idp {
+                    sigs_refused(s, "elgamal_verify_and_decrypt_identity_or_zero_refused", format!("{}|{}", key, what), sigs_try(|| proof.verify_and_decrypt(&sk).is_ok()), d);
+                } else {
+                    // identity key <=> zero secret key
+                    sigs_refused(s, "elgamal_verify_and_decrypt_identity_or_zero_refused", format!("{}|{}|zero sk", key, what), sigs_try(|| proof.verify_and_decrypt(&SecretKey::<C>(Scalar::ZERO)).is_ok()),
+                        sigs_with(d, json!({"decrypt_with_sk": "00"})));
+                }
+            }
+        }
+
+        fn sigs_c04_zero_key(s: &mut Search, rng: &mut Prng, thorough: bool) {
+            let z32 = [0u8; 32];
+            let imp = sigs_imp();
+            sigs_refused(s, "zero_key_import_refused", format!("{}|try_from", G1), sigs_try(|| SecretKey::<C>::try_from(&z32[..]).is_ok()), json!({"impl": imp, "entry": "SecretKey::try_from(&[u8])", "bytes": gen::hx(&z32)}));
+            sigs_refused(s, "zero_key_import_refused", format!("{}|try_from_vec", G1), sigs_try(|| SecretKey::<C>::try_from(z32.to_vec()).is_ok()), json!({"impl": imp, "entry": "SecretKey::try_from(Vec<u8>)", "bytes": gen::hx(&z32)}));
+            sigs_refused(s, "zero_key_import_refused", format!("{}|be", G1), sigs_try(|| bool::from(SecretKey::<C>::from_be_bytes(&z32).is_some())), json!({"impl": imp, "entry": "SecretKey::from_be_bytes", "bytes": gen::hx(&z32)}));
+            sigs_refused(s, "zero_key_import_refused", format!("{}|le", G1), sigs_try(|| bool::from(SecretKey::<C>::from_le_bytes(&z32).is_some())), json!({"impl": imp, "entry": "SecretKey::from_le_bytes", "bytes": gen::hx(&z32)}));
+            // the modulus r is another spelling of zero
+            let r_be = sc_be(&(-RScalar::ONE));
+            let mut r_be = r_be;
+            r_be[31] += 1; // r-1 ends in ...00000000, no carry
+            let mut r_le = r_be;
+            r_le.reverse();
+            sigs_refused(s, "zero_key_import_refused", format!("{}|try_from_r", G1), sigs_try(|| SecretKey::<C>::try_from(&r_be[..]).is_ok()), json!({"impl": imp, "entry": "SecretKey::try_from(&[u8])", "bytes": gen::hx(&r_be), "note": "group order r, congruent to zero"}));
+            sigs_refused(s, "zero_key_import_refused", format!("{}|be_r", G1), sigs_try(|| bool::from(SecretKey::<C>::from_be_bytes(&r_be).is_some())), json!({"impl": imp, "entry": "SecretKey::from_be_bytes", "bytes": gen::hx(&r_be), "note": "group order r"}));
+            sigs_refused(s, "zero_key_import_refused", format!("{}|le_r", G1), sigs_try(|| bool::from(SecretKey::<C>::from_le_bytes(&r_le).is_some())), json!({"impl": imp, "entry": "SecretKey::from_le_bytes", "bytes": gen::hx(&r_le), "note": "group order r"}));
+            // the enum wrapper, type byte as the parser expects it
+            let tag = if G1 { 1u8 } else { 2u8 };
+            let mut tz = vec![tag];
+            tz.extend_from_slice(&z32);
+            sigs_refused(s, "zero_key_import_refused", format!("{}|enum_be", G1), sigs_try(|| bool::from(SecretKeyEnum::from_be_bytes(&tz).is_some())), json!({"impl": imp, "entry": "SecretKeyEnum::from_be_bytes", "bytes": gen::hx(&tz)}));
+            sigs_refused(s, "zero_key_import_refused", format!("{}|enum_le", G1), sigs_try(|| bool::from(SecretKeyEnum::from_le_bytes(&tz).is_some())), json!({"impl": imp, "entry": "SecretKeyEnum::from_le_bytes", "bytes": gen::hx(&tz)}));
+            // use of the zero key
+            let z = SecretKey::<C>(Scalar::ZERO);
+            let mut lens = vec![0usize, 1, 32, 100];
+            if thorough {
+                lens.extend_from_slice(&[33, 64, 255, 4096]);
+            }
+            for len in lens {
+                let m = gen::message(rng, len);
+                for sc in 0..3u8 {
+                    sigs_refused(s, "zero_key_sign_refused", format!("{}|{}|{}", G1, sc, gen::hx(&sha256(&m))), sigs_try(|| z.sign(scheme_of(sc), &m).is_ok()),
+                        json!({"impl": imp, "sk": "00", "scheme": gen::SCH[sc as usize], "msg": sigs_mh(&m)}));
+                }
+            }
+            sigs_refused(s, "zero_key_pop_refused", format!("{}|pop", G1), sigs_try(|| z.proof_of_possession().is_ok()), json!({"impl": imp, "sk": "00"}));
+        }
+
+        pub fn c04(s: &mut Search, rng: &mut Prng, thorough: bool) {
+            let mut keys = vec![RScalar::ONE, -RScalar::ONE, gen::edge_scalars()[6]];
+            for _ in 0..(if thorough { 10 } else { 1 }) {
+                keys.push(rng.scalar());
+            }
+            let lens: Vec<usize> = if thorough { vec![0, 1, 32, 33, 64, 100, 127] } else { vec![0, 32, 100] };
+            for (ki, k) in keys.iter().enumerate() {
+                for (li, &len) in lens.iter().enumerate() {
+                    if !thorough && (ki + li) % 2 == 1 {
+                        continue;
+                    }
+                    let m = gen::message(rng, len);
+                    sigs_c04_signature(s, rng, k, &m);
+                    sigs_c04_pok(s, rng, k, &m);
+                    sigs_c04_shares(s, rng, k, &m);
+                    sigs_c04_ciphertexts(s, rng, k, &m);
+                }
+                for _ in 0..(if thorough { 3 } else { 1 }) {
+                    sigs_c04_elgamal(s, rng, k);
+                }
+            }
+            let ns: Vec<usize> = if thorough { vec![2, 3, 4, 5, 8, 16, 33, 64] } else { vec![2, 3, 5, 16] };
+            for &n in &ns {
+                for sc in 0..3u8 {
+                    sigs_c04_aggregate(s, rng, n, sc);
+                }
+            }
+            sigs_c04_zero_key(s, rng, thorough);
+        }
+        // ------------------------------------------------------------------ shared constructions (deterministic)
+        const SIGS_TIMELOCK_SALT: &[u8] = b"TIMELOCK_BLS12381_XOF:HKDF-SHA2-256_";
+        const SIGS_ELGAMAL_SALT: &[u8] = b"ELGAMAL_BLS12381_XOF:HKDF-SHA2-256_";
+
+        fn sigs_hash(m: &[u8], scheme: u8) -> SigsS {
+            <C as HashToPoint>::hash_to_point(m, gen::dst(G1, scheme))
+        }
+        /// length-prefixed (single varint byte, so < 128 bytes), zero padded to 32
+        fn sigs_padded(msg: &[u8]) -> Vec<u8> {
+            assert!(msg.len() < 128);
+            let mut ob = vec![msg.len() as u8];
+            ob.extend_from_slice(msg);
+            while ob.len() < 32 {
+                ob.push(0);
+            }
+            ob
+        }
+        /// signcryption `seal` with the blinding scalar supplied (the library draws it from the OS)
+        fn sigs_signcrypt_seal(pkp: SigsP, msg: &[u8], scheme: u8, r: Scalar) -> SignCryptCiphertext<C> {
+            let u = SigsP::generator() * r;
+            let v = <C as BlsSignCrypt>::compute_v(pkp * r, &sigs_padded(msg));
+            let w = <C as BlsSignCrypt>::compute_w(u, &v, &gen::dst(G1, scheme)) * r;
+            SignCryptCiphertext::<C> { u, v, w, scheme: scheme_of(scheme) }
+        }
+        /// time-lock `seal` with alpha supplied
+        fn sigs_timelock_seal(pkp: SigsP, msg: &[u8], id: &[u8], scheme: u8, alpha: Scalar) -> TimeCryptCiphertext<C> {
+            let arepr = alpha.to_repr();
+            let mut r_input = arepr.as_ref().to_vec();
+            r_input.extend_from_slice(&sha256(msg));
+            let r = <C as HashToScalar>::hash_to_scalar(&r_input, SIGS_TIMELOCK_SALT);
+            let k = <C as Pairing>::pairing(&[(sigs_hash(id, scheme), pkp * r)]);
+            let u = SigsP::generator() * r;
+            let v = <C as BlsTimeCrypt>::compute_v(k, arepr.as_ref());
+            let w = <C as BlsTimeCrypt>::compute_w(arepr.as_ref(), &sigs_padded(msg));
+            TimeCryptCiphertext::<C> { u, v, w, scheme: scheme_of(scheme) }
+        }
+        fn sigs_sc_det(ct: &SignCryptCiphertext<C>) -> serde_json::Value {
+            json!({"u": hexpt(&ct.u), "v": gen::hx(&ct.v), "w": hexpt(&ct.w), "scheme": scheme_name(ct.scheme)})
+        }
+        fn sigs_tc_det(ct: &TimeCryptCiphertext<C>) -> serde_json::Value {
+            json!({"u": hexpt(&ct.u), "v": gen::hx(&ct.v), "w": gen::hx(&ct.w), "scheme": scheme_name(ct.scheme)})
+        }
+        fn sigs_opt(o: subtle::CtOption<Vec<u8>>) -> Option<Vec<u8>> {
+            o.into()
+        }
+
+        // ------------------------------------------------------------------ C05
+        pub fn c05(s: &mut Search, rng: &mut Prng, thorough: bool) {
+            let mut keys = vec![RScalar::ONE, -RScalar::ONE, gen::edge_scalars()[6]];
+            for _ in 0..(if thorough { 12 } else { 2 }) {
+                keys.push(rng.scalar());
+            }
+            let lens: Vec<usize> = if thorough { vec![0, 1, 32, 48, 96, 100, 127] } else { vec![0, 32, 100] };
+            for (ki, k) in keys.iter().enumerate() {
+                let sk = sk_of(k);
+                let pk = sk.public_key();
+                let pkb = sigs_pb(&pk.0);
+                // --- signature over the public-key bytes vs proof of possession
+                let kd = json!({"impl": sigs_imp(), "sk": gen::hs(k)});
+                for sc in 0..3u8 {
+                    if let Some(p) = sigs_sign(s, k, sc, &pkb) {
+                        let pp = ProofOfPossession::<C>(p);
+                        sigs_decide(s, "signature_over_pk_is_not_a_pop", format!("{}|{}|{}", G1, gen::hs(k), sc), false, sigs_try(|| pp.verify(pk).is_ok()),
+                            sigs_with(kd.clone(), json!({"signature_scheme": gen::SCH[sc as usize], "signed": "compressed public key bytes", "point": hexpt(&p)})));
+                    }
+                }
+                if let Ok(Ok(pop)) = sigs_try(|| sk.proof_of_possession()) {
+                    for sc in 0..3u8 {
+                        let sg = sigs_mk(sc, pop.0);
+                        sigs_decide(s, "pop_is_not_a_signature_over_pk", format!("{}|{}|{}", G1, gen::hs(k), sc), false, sigs_try(|| sg.verify(&pk, &pkb).is_ok()),
+                            sigs_with(kd.clone(), json!({"presented_as": gen::SCH[sc as usize], "msg": "compressed public key bytes", "point": hexpt(&pop.0)})));
+                    }
+                }
+                for (li, &len) in lens.iter().enumerate() {
+                    if !thorough && ki >= 3 && (li + ki) % 2 == 0 {
+                        continue;
+                    }
+                    let m = gen::message(rng, len);
+                    let md = sigs_with(kd.clone(), json!({"msg": sigs_mh(&m), "msg_len": len}));
+                    for a in 0..3u8 {
+                        let Some(p) = sigs_sign(s, k, a, &m) else { continue };
+                        let bkey = format!("{}|{}|{}|{}", G1, gen::hs(k), a, gen::hx(&sha256(&m)));
+                        // deterministic prover state
+                        let x = sigs_sc(&rng.scalar());
+                        let y = sigs_sc(&rng.scalar());
+                        let alpha = sigs_sc(&rng.scalar());
+                        let rr_ = sigs_sc(&rng.scalar());
+                        // proof of knowledge (three-step) made with the library's finalize
+                        let com = match a { 0 => ProofCommitment::<C>::Basic(sigs_hash(&m, a) * x), 1 => ProofCommitment::<C>::MessageAugmentation(sigs_hash(&m, a) * x), _ => ProofCommitment::<C>::ProofOfPossession(sigs_hash(&m, a) * x) };
+                        let pok = sigs_try(|| com.finalize(ProofCommitmentSecret::<C>(x), ProofCommitmentChallenge::<C>(y), sigs_mk(a, p)));
+                        // timestamp proof of knowledge with fixed x and t
+                        let t = 1_000_000_000_000u64 + rng.below(1000);
+                        let u_t = sigs_hash(&m, a) * x;
+                        let y_t = <C as BlsSignatureProof>::compute_y(u_t, t);
+                        let v_t = -(p * (x + y_t));
+                        let sc_ct = sigs_signcrypt_seal(pk.0, &m, a, rr_);
+                        let id = rng.bytes(16);
+                        let tl_ct = sigs_timelock_seal(pk.0, &m, &id, a, alpha);
+                        let tl_key = sigs_hash(&id, a) * sigs_sc(k); // the decryption key the ciphertext is bound to
+                        // honest behaviour, recorded in the detail only
+                        let pok_honest = match &pok { Ok(Ok(pk_)) => sigs_try(|| pk_.verify(pk, &m, ProofCommitmentChallenge::<C>(y)).is_ok()).ok(), _ => None };
+                        let sc_honest = sigs_try(|| bool::from(sc_ct.is_valid()) && sigs_opt(sc_ct.decrypt(&sk)).as_deref() == Some(m.as_slice())).ok();
+                        let tl_honest = sigs_try(|| sigs_opt(tl_ct.decrypt(&sigs_mk(a, tl_key))).as_deref() == Some(m.as_slice())).ok();
+                        for b in 0..3u8 {
+                            if a == b {
+                                continue;
+                            }
+                            let pd = sigs_with(md.clone(), json!({"made_under": gen::SCH[a as usize], "presented_under": gen::SCH[b as usize]}));
+                            let key = format!("{}|{}", bkey, b);
+                            // signature relabelled
+                            let sg = sigs_mk(b, p);
+                            sigs_decide(s, "signature_relabelled_rejects", key.clone(), false, sigs_try(|| sg.verify(&pk, &m).is_ok()),
+                                sigs_with(pd.clone(), json!({"sig": hexpt(&p)})));
+                            // proof of knowledge relabelled
+                            if let Ok(Ok(pok)) = &pok {
+                                let (u, v) = match pok {
+                                    ProofOfKnowledge::Basic { u, v } | ProofOfKnowledge::MessageAugmentation { u, v } | ProofOfKnowledge::ProofOfPossession { u, v } => (*u, *v),
+                                };
+                                let rel = sigs_mk_pok(b, u, v);
+                                sigs_decide(s, "proof_of_knowledge_relabelled_rejects", key.clone(), false,
+                                    sigs_try(|| rel.verify(pk, &m, ProofCommitmentChallenge::<C>(y)).is_ok()),
+                                    sigs_with(pd.clone(), json!({"x": hex::encode(bsc_be(&x)), "y": hex::encode(bsc_be(&y)), "u": hexpt(&u), "v": hexpt(&v), "honest_verifies": pok_honest})));
+                            }
+                            let relt = ProofOfKnowledgeTimestamp::<C> { proof: sigs_mk_pok(b, u_t, v_t), timestamp: t };
+                            sigs_decide(s, "proof_of_knowledge_timestamp_relabelled_rejects", key.clone(), false,
+                                sigs_try(|| relt.verify(pk, &m, None).is_ok()),
+                                sigs_with(pd.clone(), json!({"x": hex::encode(bsc_be(&x)), "timestamp": t, "u": hexpt(&u_t), "v": hexpt(&v_t)})));
+                            // signcryption ciphertext relabelled
+                            let mut rct = sc_ct.clone();
+                            rct.scheme = scheme_of(b);
+                            let d = sigs_with(pd.clone(), json!({"ciphertext": sigs_sc_det(&rct), "blinding_r": hex::encode(bsc_be(&rr_)), "honest_decrypts": sc_honest}));
+                            sigs_decide(s, "signcrypt_relabelled_is_invalid", key.clone(), false, sigs_try(|| bool::from(rct.is_valid())), d.clone());
+                            sigs_decide(s, "signcrypt_relabelled_does_not_decrypt", key.clone(), false, sigs_try(|| sigs_opt(rct.decrypt(&sk)).is_some()), d.clone());
+                            let dk = SignCryptDecryptionKey::<C>(rct.u * sigs_sc(k));
+                            sigs_decide(s, "signcrypt_relabelled_does_not_decrypt", format!("{}|dk", key), false, sigs_try(|| sigs_opt(dk.decrypt(&rct)).is_some()),
+                                sigs_with(d, json!({"via": "SignCryptDecryptionKey"})));
+                            // time-lock ciphertext relabelled: with the key it was bound to (still labelled a), and with
+                            // honest signatures / decryption keys of the new scheme over the identifier
+                            let mut tct = tl_ct.clone();
+                            tct.scheme = scheme_of(b);
+                            let d = sigs_with(pd.clone(), json!({"ciphertext": sigs_tc_det(&tct), "id": gen::hx(&id), "alpha": hex::encode(bsc_be(&alpha)), "honest_decrypts": tl_honest}));
+                            let mut opens: Vec<(&str, Signature<C>)> = vec![
+                                ("decryption key of the original scheme, original label", sigs_mk(a, tl_key)),
+                                ("decryption key H(id, tag of new scheme)*sk, new label", sigs_mk(b, sigs_hash(&id, b) * sigs_sc(k))),
+                            ];
+                            if let Some(q) = sigs_sign(s, k, b, &id) {
+                                opens.push(("honest signature over id under the new scheme", sigs_mk(b, q)));
+                            }
+                            if let Some(q) = sigs_sign(s, k, a, &id) {
+                                opens.push(("honest signature over id under the original scheme", sigs_mk(a, q)));
+                            }
+                            for (oi, (what, sg)) in opens.iter().enumerate() {
+                                sigs_decide(s, "timelock_relabelled_does_not_decrypt", format!("{}|{}", key, oi), false,
+                                    sigs_try(|| sigs_opt(tct.decrypt(sg)).is_some()),
+                                    sigs_with(d.clone(), json!({"opened_with": what, "key_point": hexpt(sg.as_raw_value())})));
+                            }
+                            // the untouched ciphertext with keys of the other scheme
+                            let d = sigs_with(pd.clone(), json!({"ciphertext": sigs_tc_det(&tl_ct), "id": gen::hx(&id), "alpha": hex::encode(bsc_be(&alpha)), "honest_decrypts": tl_honest}));
+                            let mut opens: Vec<(&str, Signature<C>)> = vec![
+                                ("right key point, labelled with the other scheme", sigs_mk(b, tl_key)),
+                                ("decryption key H(id, tag of other scheme)*sk labelled with the ciphertext's scheme", sigs_mk(a, sigs_hash(&id, b) * sigs_sc(k))),
+                            ];
+                            if let Some(q) = sigs_sign(s, k, b, &id) {
+                                opens.push(("honest signature over id under the other scheme", sigs_mk(b, q)));
+                            }
+                            for (oi, (what, sg)) in opens.iter().enumerate() {
+                                sigs_decide(s, "timelock_key_of_other_scheme_does_not_decrypt", format!("{}|{}", key, oi), false,
+                                    sigs_try(|| sigs_opt(tl_ct.decrypt(sg)).is_some()),
+                                    sigs_with(d.clone(), json!({"opened_with": what, "key_point": hexpt(sg.as_raw_value())})));
+                            }
+                        }
+                    }
+                }
+            }
+            // --- the finite set of tag constants
+            let mine: Vec<(&str, &[u8], Option<Vec<u8>>)> = vec![
+                ("BlsSignatureBasic::DST", <C as BlsSignatureBasic>::DST, Some(gen::dst(G1, 0))),
+                ("BlsSignatureMessageAugmentation::DST", <C as BlsSignatureMessageAugmentation>::DST, Some(gen::dst(G1, 1))),
+                ("BlsSignaturePop::SIG_DST", <C as BlsSignaturePop>::SIG_DST, Some(gen::dst(G1, 2))),
+                ("BlsSignaturePop::POP_DST", <C as BlsSignaturePop>::POP_DST, Some(gen::dst_pop(G1))),
+                ("BlsElGamal::ENC_DST", <C as BlsElGamal>::ENC_DST, None),
+            ];
+            for (name, val, ietf) in &mine {
+                if let Some(want) = ietf {
+                    s.case("tag_equals_ietf_string", format!("{}|{}", G1, name), *val == want.as_slice(),
+                        json!({"impl": sigs_imp(), "constant": name, "value": String::from_utf8_lossy(val), "ietf": String::from_utf8_lossy(want)}));
+                }
+            }
+            if G1 {
+                let all: Vec<(String, &[u8])> = vec![
+                    ("g1 BlsSignatureBasic::DST".into(), <Bls12381G1Impl as BlsSignatureBasic>::DST),
+                    ("g1 BlsSignatureMessageAugmentation::DST".into(), <Bls12381G1Impl as BlsSignatureMessageAugmentation>::DST),
+                    ("g1 BlsSignaturePop::SIG_DST".into(), <Bls12381G1Impl as BlsSignaturePop>::SIG_DST),
+                    ("g1 BlsSignaturePop::POP_DST".into(), <Bls12381G1Impl as BlsSignaturePop>::POP_DST),
+                    ("g1 BlsElGamal::ENC_DST".into(), <Bls12381G1Impl as BlsElGamal>::ENC_DST),
+                    ("g2 BlsSignatureBasic::DST".into(), <Bls12381G2Impl as BlsSignatureBasic>::DST),
+                    ("g2 BlsSignatureMessageAugmentation::DST".into(), <Bls12381G2Impl as BlsSignatureMessageAugmentation>::DST),
+                    ("g2 BlsSignaturePop::SIG_DST".into(), <Bls12381G2Impl as BlsSignaturePop>::SIG_DST),
+                    ("g2 BlsSignaturePop::POP_DST".into(), <Bls12381G2Impl as BlsSignaturePop>::POP_DST),
+                    ("g2 BlsElGamal::ENC_DST".into(), <Bls12381G2Impl as BlsElGamal>::ENC_DST),
+                ];
+                for i in 0..all.len() {
+                    s.case("tag_nonempty", all[i].0.clone(), !all[i].1.is_empty(), json!({"constant": all[i].0}));
+                    for j in i + 1..all.len() {
+                        s.case("tags_pairwise_distinct", format!("{}|{}", all[i].0, all[j].0), all[i].1 != all[j].1,
+                            json!({"a": all[i].0, "b": all[j].0, "value_a": String::from_utf8_lossy(all[i].1), "value_b": String::from_utf8_lossy(all[j].1)}));
+                    }
+                }
+            }
+        }
+        // ------------------------------------------------------------------ C06
+        /// key table entry: (dlog, library point, reference-encoded bytes)
+        fn sigs_c06_eval(s: &mut Search, cache: &mut crate::search_sigs::SigsRefCache, base: &serde_json::Value,
+                         keytab: &[(RScalar, SigsP, Vec<u8>)], class: &str, pert: serde_json::Value, scheme: u8,
+                         list: &[(usize, Vec<u8>)], aggp: SigsS, expect: bool) {
+            let data: Vec<(PublicKey<C>, Vec<u8>)> = list.iter().map(|(i, m)| (PublicKey::<C>(keytab[*i].1), m.clone())).collect();
+            let agg = sigs_mk_agg(scheme, aggp);
+            let got = sigs_try(|| agg.verify(&data).is_ok());
+            let rp: Vec<(Vec<u8>, Vec<u8>)> = list.iter().map(|(i, m)| (keytab[*i].2.clone(), m.clone())).collect();
+            let aggb = sigs_sb(&aggp);
+            let refd = crate::search_sigs::sigs_ref_core_aggregate_verify(G1, scheme, &rp, &aggb, true, cache);
+            let mut h = Vec::new();
+            for (i, m) in list {
+                h.extend_from_slice(&sc_be(&keytab[*i].0));
+                h.extend_from_slice(&(m.len() as u64).to_be_bytes());
+                h.extend_from_slice(m);
+            }
+            let key = format!("{}|{}|{}|{}", G1, scheme, gen::hx(&aggb), gen::hx(&sha256(&h)));
+            let det = sigs_with(base.clone(), json!({"perturbation": pert, "aggregate": gen::hx(&aggb),
+                "pairs": list.iter().map(|(i, m)| json!({"sk": gen::hs(&keytab[*i].0), "msg": sigs_mh(m)})).collect::<Vec<_>>()}));
+            sigs_decide(s, class, key.clone(), expect, got, det.clone());
+            sigs_vs_ref(s, key, got, refd, det);
+        }
+
+        fn sigs_c06_msgs(rng: &mut Prng, n: usize) -> Vec<Vec<u8>> {
+            let mut seen = std::collections::HashSet::new();
+            let mut v = vec![];
+            while v.len() < n {
+                let len = match rng.below(8) { 0 => 0, 1 => 1, 2 => 32, 3 => 64 + rng.below(3) as usize, _ => 1 + rng.below(48) as usize };
+                let m = gen::message(rng, len);
+                if seen.insert(m.clone()) {
+                    v.push(m);
+                }
+            }
+            v
+        }
+
+        /// sign every (key index, message) pair and aggregate through the library
+        fn sigs_c06_aggregate(s: &mut Search, base: &serde_json::Value, bkey: &str, keytab: &[(RScalar, SigsP, Vec<u8>)], scheme: u8,
+                              list: &[(usize, Vec<u8>)]) -> Option<(Vec<SigsS>, SigsS)> {
+            let mut pts = vec![];
+            for (i, m) in list {
+                pts.push(sigs_sign(s, &keytab[*i].0, scheme, m)?);
+            }
+            let sigs: Vec<Signature<C>> = pts.iter().map(|p| sigs_mk(scheme, *p)).collect();
+            match sigs_try(|| AggregateSignature::<C>::from_signatures(&sigs)) {
+                Ok(Ok(a)) => {
+                    let (p, same) = match (a, scheme) {
+                        (AggregateSignature::Basic(p), 0) | (AggregateSignature::MessageAugmentation(p), 1) | (AggregateSignature::ProofOfPossession(p), 2) => (p, true),
+                        (AggregateSignature::Basic(p), _) | (AggregateSignature::MessageAugmentation(p), _) | (AggregateSignature::ProofOfPossession(p), _) => (p, false),
+                    };
+                    s.case("aggregate_accumulates", bkey.to_string(), same, base.clone());
+                    Some((pts, p))
+                }
+                Ok(Err(_)) => {
+                    s.case("aggregate_accumulates", bkey.to_string(), false, base.clone());
+                    None
+                }
+                Err(()) => {
+                    s.case("aggregate_accumulates_panicked", bkey.to_string(), false, base.clone());
+                    None
+                }
+            }
+        }
+
+        fn sigs_c06_trial(s: &mut Search, rng: &mut Prng, thorough: bool, n: usize, scheme: u8) {
+            let mut cache = crate::search_sigs::SigsRefCache::new();
+            let mut ks: Vec<RScalar> = (0..n + 1).map(|_| rng.scalar()).collect();
+            if n == 2 {
+                ks[0] = [RScalar::ONE, -RScalar::ONE, RScalar::from(2u64)][scheme as usize];
+            }
+            let keytab: Vec<(RScalar, SigsP, Vec<u8>)> = ks.iter().map(|k| (*k, sk_of(k).public_key().0, ref_sk_to_pk(G1, k))).collect();
+            let extra = n; // index of the outsider key
+            let mut msgs = sigs_c06_msgs(rng, n + 1);
+            let extra_msg = msgs.pop().unwrap();
+            let list: Vec<(usize, Vec<u8>)> = (0..n).map(|i| (i, msgs[i].clone())).collect();
+            let base = json!({"impl": sigs_imp(), "scheme": gen::SCH[scheme as usize], "n": n});
+            let bkey = format!("{}|{}|{}|{}", G1, scheme, n, gen::hs(&ks[0]));
+            let Some((pts, agg)) = sigs_c06_aggregate(s, &base, &bkey, &keytab, scheme, &list) else { return };
+            sigs_c06_eval(s, &mut cache, &base, &keytab, "aggregate_verifies_in_order", json!("none"), scheme, &list, agg, true);
+            for t in 0..(if thorough { 3 } else { 2 }) {
+                let mut pl = list.clone();
+                if t == 0 { pl.reverse() } else { sigs_shuffle(rng, &mut pl) }
+                sigs_c06_eval(s, &mut cache, &base, &keytab, "aggregate_verifies_permuted", json!({"kind": "pair list permuted", "order": pl.iter().map(|(i, _)| *i).collect::<Vec<_>>()}), scheme, &pl, agg, true);
+            }
+            for pos in sigs_positions(rng, n, (thorough && n <= 8) || n <= 4, thorough) {
+                // altered message
+                let mut l = list.clone();
+                if l[pos].1.is_empty() || rng.below(4) == 0 {
+                    l[pos].1.push(0);
+                    sigs_c06_eval(s, &mut cache, &base, &keytab, "aggregate_altered_message_rejects", json!({"kind": "0x00 appended to message", "index": pos}), scheme, &l, agg, false);
+                } else {
+                    let (bi, bt) = (rng.below(l[pos].1.len() as u64) as usize, rng.below(8) as u8);
+                    l[pos].1[bi] ^= 1 << bt;
+                    sigs_c06_eval(s, &mut cache, &base, &keytab, "aggregate_altered_message_rejects", json!({"kind": "message bit flip", "index": pos, "byte": bi, "bit": bt}), scheme, &l, agg, false);
+                }
+                // altered key: an outsider, and the key of the neighbour
+                let mut l = list.clone();
+                l[pos].0 = extra;
+                sigs_c06_eval(s, &mut cache, &base, &keytab, "aggregate_altered_key_rejects", json!({"kind": "key replaced by an outsider's", "index": pos}), scheme, &l, agg, false);
+                let mut l = list.clone();
+                l[pos].0 = (pos + 1) % n;
+                sigs_c06_eval(s, &mut cache, &base, &keytab, "aggregate_altered_key_rejects", json!({"kind": "key replaced by the next signer's", "index": pos}), scheme, &l, agg, false);
+                // dropped pair
+                let mut l = list.clone();
+                l.remove(pos);
+                sigs_c06_eval(s, &mut cache, &base, &keytab, "aggregate_dropped_pair_rejects", json!({"kind": "pair dropped", "index": pos}), scheme, &l, agg, false);
+                // added pair (inserted at pos): an outsider's pair (new message), and an outsider's key with a fresh message
+                let mut l = list.clone();
+                l.insert(pos, (extra, extra_msg.clone()));
+                sigs_c06_eval(s, &mut cache, &base, &keytab, "aggregate_added_pair_rejects", json!({"kind": "pair (outsider key, new message) inserted", "index": pos}), scheme, &l, agg, false);
+                let mut l = list.clone();
+                l.insert(pos, (pos, extra_msg.clone()));
+                sigs_c06_eval(s, &mut cache, &base, &keytab, "aggregate_added_pair_rejects", json!({"kind": "pair (key of this signer, new message) inserted", "index": pos}), scheme, &l, agg, false);
+                // two messages swapped between different signers
+                let other = (pos + 1 + rng.below(n as u64 - 1) as usize) % n;
+                let mut l = list.clone();
+                let t = l[pos].1.clone();
+                l[pos].1 = l[other].1.clone();
+                l[other].1 = t;
+                sigs_c06_eval(s, &mut cache, &base, &keytab, "aggregate_swapped_messages_rejects", json!({"kind": "messages swapped", "index": pos, "with": other}), scheme, &l, agg, false);
+                // aggregate with one part missing against the full list
+                let mut a2 = SigsS::identity();
+                for (i, p) in pts.iter().enumerate() {
+                    if i != pos {
+                        a2 += p;
+                    }
+                }
+                sigs_c06_eval(s, &mut cache, &base, &keytab, "aggregate_missing_part_rejects", json!({"kind": "aggregate lacks the signature of", "index": pos}), scheme, &list, a2, false);
+            }
+            // relabelled aggregate
+            let other_label = (scheme + 1 + rng.below(2) as u8) % 3;
+            {
+                // (the dispatch is by the label of the aggregate; reference evaluated under that label)
+                let data: Vec<(PublicKey<C>, Vec<u8>)> = list.iter().map(|(i, m)| (PublicKey::<C>(keytab[*i].1), m.clone())).collect();
+                let a = sigs_mk_agg(other_label, agg);
+                let got = sigs_try(|| a.verify(&data).is_ok());
+                let rp: Vec<(Vec<u8>, Vec<u8>)> = list.iter().map(|(i, m)| (keytab[*i].2.clone(), m.clone())).collect();
+                let refd = crate::search_sigs::sigs_ref_core_aggregate_verify(G1, other_label, &rp, &sigs_sb(&agg), true, &mut cache);
+                let det = sigs_with(base.clone(), json!({"perturbation": format!("aggregate relabelled {}", gen::SCH[other_label as usize]), "aggregate": hexpt(&agg),
+                    "pairs": list.iter().map(|(i, m)| json!({"sk": gen::hs(&keytab[*i].0), "msg": sigs_mh(m)})).collect::<Vec<_>>()}));
+                let key = format!("{}|relabel|{}|{}|{}", G1, scheme, other_label, hexpt(&agg));
+                sigs_decide(s, "aggregate_relabelled_rejects", key.clone(), false, got, det.clone());
+                sigs_vs_ref(s, key, got, refd, det);
+            }
+            // repeated messages: (A) two different signers sign the same message, (B) the same pair twice
+            let (i, j) = (rng.below(n as u64) as usize, 0usize);
+            let j = if i == j { n - 1 } else { j };
+            let mut dl = list.clone();
+            dl[j].1 = dl[i].1.clone();
+            let (class, expect) = if scheme == 0 { ("aggregate_basic_repeated_message_rejects", false) } else { ("aggregate_repeated_message_accepts", true) };
+            let bkey2 = format!("{}|dupA", bkey);
+            if let Some((_, dagg)) = sigs_c06_aggregate(s, &base, &bkey2, &keytab, scheme, &dl) {
+                let rp: Vec<(Vec<u8>, Vec<u8>)> = dl.iter().map(|(i, m)| (keytab[*i].2.clone(), m.clone())).collect();
+                let alg = crate::search_sigs::sigs_ref_core_aggregate_verify(G1, scheme, &rp, &sigs_sb(&dagg), false, &mut cache);
+                if alg {
+                    sigs_c06_eval(s, &mut cache, &base, &keytab, class, json!({"kind": "two signers sign the same message; aggregate of their honest signatures", "index": j, "same_as": i, "algebraically_valid": alg}), scheme, &dl, dagg, expect);
+                    let mut pl = dl.clone();
+                    sigs_shuffle(rng, &mut pl);
+                    sigs_c06_eval(s, &mut cache, &base, &keytab, class, json!({"kind": "two signers sign the same message; permuted", "algebraically_valid": alg}), scheme, &pl, dagg, expect);
+                } else {
+                    eprintln!("c06: reference finds honest duplicate-message aggregate algebraically invalid (construction bug?)");
+                }
+            }
+            let mut dl = list.clone();
+            dl.push(list[i].clone());
+            let dagg = agg + pts[i];
+            let rp: Vec<(Vec<u8>, Vec<u8>)> = dl.iter().map(|(i, m)| (keytab[*i].2.clone(), m.clone())).collect();
+            let alg = crate::search_sigs::sigs_ref_core_aggregate_verify(G1, scheme, &rp, &sigs_sb(&dagg), false, &mut cache);
+            if alg {
+                sigs_c06_eval(s, &mut cache, &base, &keytab, class, json!({"kind": "one signer's pair listed twice, signature added twice", "index": i, "algebraically_valid": alg}), scheme, &dl, dagg, expect);
+            } else {
+                eprintln!("c06: reference finds doubled-pair aggregate algebraically invalid (construction bug?)");
+            }
+        }
+
+        pub fn c06(s: &mut Search, rng: &mut Prng, thorough: bool) {
+            let ns: Vec<usize> = if thorough { (2..=64).collect() } else { vec![2, 3, 4, 7, 16, 64] };
+            for &n in &ns {
+                for scheme in 0..3u8 {
+                    sigs_c06_trial(s, rng, thorough, n, scheme);
+                }
+            }
+            // refusals of from_signatures
+            let k = rng.scalar();
+            let m = rng.bytes(24);
+            let one: Vec<Option<SigsS>> = (0..3u8).map(|sc| sigs_sign(s, &k, sc, &m)).collect();
+            if one.iter().all(|p| p.is_some()) {
+                for sc in 0..3u8 {
+                    let empty: Vec<Signature<C>> = vec![];
+                    sigs_decide(s, "aggregate_refuses_fewer_than_two", format!("{}|empty|{}", G1, sc), false,
+                        sigs_try(|| AggregateSignature::<C>::from_signatures(&empty).is_ok()), json!({"impl": sigs_imp(), "n": 0}));
+                    let single = vec![sigs_mk(sc, one[sc as usize].unwrap())];
+                    sigs_decide(s, "aggregate_refuses_fewer_than_two", format!("{}|single|{}", G1, sc), false,
+                        sigs_try(|| AggregateSignature::<C>::from_signatures(&single).is_ok()),
+                        json!({"impl": sigs_imp(), "n": 1, "scheme": gen::SCH[sc as usize], "sk": gen::hs(&k), "msg": gen::hx(&m)}));
+                }
+                for n in [2usize, 3, 5, 64] {
+                    for host in 0..3u8 {
+                        for guest in 0..3u8 {
+                            if guest == host {
+                                continue;
+                            }
+                            let mut ps = vec![0, n / 2, n - 1];
+                            ps.dedup();
+                            for pos in ps {
+                                let list: Vec<Signature<C>> = (0..n).map(|i| { let l = if i == pos { guest } else { host }; sigs_mk(l, one[l as usize].unwrap()) }).collect();
+                                let got = sigs_try(|| AggregateSignature::<C>::from_signatures(&list).is_ok());
+                                sigs_decide(s, "aggregate_refuses_mixed_schemes", format!("{}|mixed|{}|{}|{}|{}", G1, n, host, guest, pos), false, got,
+                                    json!({"impl": sigs_imp(), "sk": gen::hs(&k), "msg": gen::hx(&m), "n": n, "scheme_of_list": gen::SCH[host as usize], "scheme_at_index": gen::SCH[guest as usize], "index": pos}));
+                            }
+                        }
+                    }
+                }
+            }
+        }
     };
 }
